@@ -136,13 +136,27 @@ def _build(factory, cls):
     return p
 
 
+def _configure(factory, opts, cls):
+    """opts: keyword arguments for setProtocolOptions, plus two ways of configuring that must come to the same thing:
+    "_pre": an earlier setProtocolOptions call whose values the main call then replaces (e.g. a limit lifted again with 0),
+    "_attrs": option values set as class attributes of the protocol subclass instead of on the factory"""
+    opts = dict(opts or {})
+    pre, attrs = opts.pop("_pre", None), opts.pop("_attrs", None)
+    if pre:
+        factory.setProtocolOptions(**pre)
+    if opts:
+        factory.setProtocolOptions(**opts)
+    if attrs:
+        cls = type(cls.__name__ + "Cfg", (cls,), dict(attrs))
+    return cls
+
+
 def make_server(log=None, url="ws://localhost:9000", protocols=None, opts=None, onconnect=None, cls=RecServer,
                 factory_kw=None, factory=None):
     log = [] if log is None else log
     if factory is None:
         factory = WebSocketServerFactory(url, protocols=protocols, **(factory_kw or {}))
-        if opts:
-            factory.setProtocolOptions(**opts)
+        cls = _configure(factory, opts, cls)
     if onconnect:
         factory.v_onconnect = onconnect
     p = _build(factory, cls)
@@ -156,8 +170,7 @@ def make_client(log=None, url="ws://localhost:9000", protocols=None, opts=None, 
     log = [] if log is None else log
     if factory is None:
         factory = WebSocketClientFactory(url, protocols=protocols, **(factory_kw or {}))
-        if opts:
-            factory.setProtocolOptions(**opts)
+        cls = _configure(factory, opts, cls)
     p = _build(factory, cls)
     p.vlog = log
     t = LogTransport(log, "C", peer_port=9000, host_port=40000)
